@@ -2912,10 +2912,12 @@ inline void CLUFactorRational::minLMem(int size)
 inline int CLUFactorRational::makeLvec(int p_len, int p_row)
 {
 
-   if(l.firstUnused >= l.startSize)
+   // l.row needs the entry firstUnused, l.start the entry firstUnused + 1 (the end of the new vector)
+   if(l.firstUnused + 1 >= l.startSize)
    {
       l.startSize += 100;
       spx_realloc(l.start, l.startSize);
+      spx_realloc(l.row, l.startSize);
    }
 
    int* p_lrow = l.row;
